@@ -105,7 +105,9 @@ func (fx *FnCtx) ghostCell(st *State, name string, sh *Shape, init Val) *Cell {
 		c = fx.newCell("$"+name, sh, nil)
 		fx.ghost[name] = c
 		iv := init
-		if sh.kind != KInt || init.ts[0] != "0" {
+		if sh.kind == KArr {
+			// sequence logs start from the given (arbitrary) array
+		} else if sh.kind != KInt || init.ts[0] != "0" {
 			// "no call recorded yet": an arbitrary value
 			iv = freshVal(fx.decls, sh, "ghost0")
 		}
